@@ -84,6 +84,7 @@ theorem segMatchValues_refines {env : Env} {rec : SegRec} {recS : Spec.SegRec}
     | num q => simp only [segMatchValues, Spec.segMatchValues]; exact ih st h
     | arr xs => simp only [segMatchValues, Spec.segMatchValues]; exact ih st h
     | obj kvs => simp only [segMatchValues, Spec.segMatchValues]; exact ih st h
+    | raw w => simp only [segMatchValues, Spec.segMatchValues]; exact ih st h
 
 theorem clauseMatch_refines {env : Env} {rec : SegRec} {recS : Spec.SegRec}
     (hrec : SegRefines env rec recS) (chain : List String) (c : Clause) (st : St)
